@@ -73,7 +73,7 @@ def meta(tier):
                             putback_ops=6 if q else 8, streams=len(STREAMS)),
                 assumptions=["free form; a split inside a character context uses a leading '&' and carries no trailing comment (standard 3.3.1.3.1)",
                              "';'-joined statements are compared case-insensitively here (their lower-casing is reported separately)"],
-                budget_s=300 if q else 2400, unit_budget_s=60 if q else 300, witness_every=10)
+                budget_s=300 if q else 1500, unit_budget_s=60 if q else 300, witness_every=10)
 
 
 def _describe(it):
